@@ -164,7 +164,65 @@ func c09size(seed uint64, ne int, cacheMB int) *srvRun {
 	return sr
 }
 
+// corruptleaf <seed> <gzip>: an archive whose leaf directories do not parse, asked three times for the same tile (the first answer is
+// what an uncached lookup gives; the cache must not change it: a failed directory is not something to remember).   Oracle only.
+func c09corruptRun(seed uint64, gzipped bool) []string {
+	r := &rng{s: seed}
+	sr := newSrvRun([]int{64, 1}[seed%2])
+	var es []Ent
+	var off uint64
+	id := hilBase(3)
+	for i := 0; i < 12; i++ {
+		l := uint32(1 + r.intn(20))
+		es = append(es, Ent{ID: id, Off: off, Len: l, Run: 1})
+		off += uint64(l)
+		id += 1 + uint64(r.intn(3))
+	}
+	a := buildArchive(r, es, r.bytes(int(off)), archOpts{tree: treeOpts{depth: 1, fan: 1, chunk: 3, gzip: gzipped, shorthand: true}, tileType: 2, tileComp: 1, meta: "{}", minZoom: 0, maxZoom: 5})
+	b := append([]byte(nil), a.Bytes...)
+	for i := a.H.LeafOff; i < a.H.LeafOff+a.H.LeafLen; i++ {
+		b[i] = 0xAA
+	}
+	a.Bytes = b
+	v := &srvVersion{id: 0, name: 0, tag: 1, arch: a}
+	sr.versions = append(sr.versions, v)
+	sr.install(v)
+	e := es[r.intn(len(es))]
+	z, x, y := pmtiles.IDToZxy(e.ID)
+	for k := 0; k < 3; k++ {
+		sr.start(0, uint64(z), uint64(x), uint64(y), 2)
+		for g := 0; g < 40; g++ {
+			pend := sr.gate.pendingList()
+			if len(pend) == 0 {
+				break
+			}
+			sr.release(pend[0], "ok")
+		}
+	}
+	sr.gate.releaseAll()
+	pmtiles.VerifSetTraceSink(nil)
+	var viol []string
+	first := sr.reqs[0]
+	for k, q := range sr.reqs {
+		if !q.done {
+			viol = append(viol, fmt.Sprintf("request %d for a tile under an unparsable leaf directory never completes", k))
+		} else if q.status != first.status || !bytes.Equal(q.body, first.body) {
+			viol = append(viol, fmt.Sprintf("unparsable leaf directory: the uncached lookup answers %d, the same request with a warm cache answers %d (request %d): the cache changed the result", first.status, q.status, k))
+		}
+	}
+	return viol
+}
+
 func c09(r *rng, tier string, o *out) {
+	for c := 0; c < 4; c++ {
+		line := fmt.Sprintf("corruptleaf %d %d", r.next()%1000000, c%2)
+		impl, viol := runCase("C09", line)
+		idx := o.emit(line, impl, true)
+		o.count("unparsable-leaf-asked-again")
+		for _, v := range viol {
+			o.violation(idx, v)
+		}
+	}
 	for _, ne := range []int{41000, 42000, 65536} {
 		sr := c09size(r.next()%1000, ne, 1)
 		finishRun(o, "C09", sr, 1, true, "size-bound")
@@ -461,7 +519,7 @@ func c08backendRun(kind string, seed uint64) []string {
 			return buildArchive(&rng{s: ts}, es, data, archOpts{tree: treeOpts{depth: depth, fan: 2, gzip: gzipped, shorthand: true},
 				tileType: 2, tileComp: uint8(1 + tag%4), meta: fmt.Sprintf(`{"v":%d}`, tag), minZoom: 0, maxZoom: zmax, pad: pad})
 		}
-		a := build(tag * 5)
+		a := build((6 - tag) * 200) // later versions are shorter: a read at an older version's offsets runs past the end of the file
 		if seed%2 == 0 { // every version of this archive has the same file size (the layouts and the bytes still differ)
 			if n := len(build(0).Bytes); n < 3000 {
 				a = build(3000 - n)
@@ -514,7 +572,13 @@ func c08backendRun(kind string, seed uint64) []string {
 			wantH = v.hdrsOf(what)
 		default:
 			e := v.arch.Ents[r.intn(len(v.arch.Ents))]
+			if what == "tilelast" { // the tile stored last: with a stale cached layout its read reaches the end of the (shorter) new file
+				e = v.arch.Ents[len(v.arch.Ents)-1]
+			}
 			z, x, y := pmtiles.IDToZxy(e.ID + uint64(r.intn(int(e.Run)+1)))
+			if what == "tilelast" {
+				z, x, y = pmtiles.IDToZxy(e.ID)
+			}
 			st, hd, body = srv.Get(context.Background(), fmt.Sprintf("/a0/%d/%d/%d.png", z, x, y))
 			wantSt, wantBody = v.answerOf(uint64(z), uint64(x), uint64(y), 2)
 		}
@@ -530,12 +594,18 @@ func c08backendRun(kind string, seed uint64) []string {
 	expect(v1, []string{"meta", "json", "tile"}[r.intn(3)])
 	v2 := mk(2)
 	put(v2)
+	if seed%4 == 1 {
+		expect(v2, "tilelast")
+	}
 	expect(v2, []string{"tile", "meta", "json"}[r.intn(3)])
 	expect(v2, "tile")
 	v3 := mk(3)
 	put(v3)
 	v4 := mk(4)
 	put(v4) // two replacements between requests
+	if seed%4 == 3 {
+		expect(v4, "tilelast")
+	}
 	expect(v4, []string{"json", "tile", "meta"}[r.intn(3)])
 	expect(v4, "tile")
 	expect(v4, "meta")
@@ -543,12 +613,12 @@ func c08backendRun(kind string, seed uint64) []string {
 }
 
 func c08(r *rng, tier string, o *out) {
-	nb := 6
+	nb := 8
 	if tier == "thorough" || tier == "shard" {
-		nb = 10
+		nb = 16
 	}
 	for c := 0; c < nb; c++ {
-		line := fmt.Sprintf("backend %s %d", []string{"file", "http"}[c%2], (r.next()%500000)*2+uint64(c/2)%2) // even seeds: versions of equal file size
+		line := fmt.Sprintf("backend %s %d", []string{"file", "http"}[c%2], (r.next()%250000)*4+uint64(c/2)%4) // even seeds: versions of equal file size; odd seeds: shrinking versions, the last tile asked first
 		impl, viol := runCase("C08", line)
 		idx := o.emit(line, impl, true)
 		o.count("real_backend_" + []string{"file", "http"}[c%2])
@@ -649,6 +719,17 @@ func srvReplay(line string) (string, []string) {
 		var seed uint64
 		fmt.Sscan(f[2], &seed)
 		viol := c08backendRun(f[1], seed)
+		if len(viol) > 0 {
+			return "violated", viol
+		}
+		return "ok", nil
+	}
+	if f[0] == "corruptleaf" {
+		var seed uint64
+		var gz int
+		fmt.Sscan(f[1], &seed)
+		fmt.Sscan(f[2], &gz)
+		viol := c09corruptRun(seed, gz == 1)
 		if len(viol) > 0 {
 			return "violated", viol
 		}
